@@ -54,7 +54,10 @@ def run(prog):
     tabs = {}
     for f in fns:
         for cs in f.terms.calls:
-            if cs.callee.name in ("index", "index_mut") and len(cs.args) == 2 and vo.dim(f, cs.args[1]) == "Label":
+            # an indexing expression, or a checked lookup (`tab.get(label)`), by a label
+            if (cs.callee.name in ("index", "index_mut") or
+                (cs.callee.name in ("get", "get_mut") and ("slice" in cs.callee.key() or "Vec" in cs.callee.key()))) \
+                    and len(cs.args) == 2 and vo.dim(f, cs.args[1]) == "Label":
                 for k in fieldkeys(cs.args[0]):
                     tabs.setdefault(k, []).append(f.name)
     missing = EXPECTED - set(tabs)
